@@ -1,6 +1,8 @@
 //! vcheck: one binary, one sub-command per property (worker and replay modes).
 
 mod c01;
+mod c02;
+mod c03;
 mod ctx;
 mod docs;
 mod obs;
@@ -21,6 +23,8 @@ pub trait Check {
 fn registry(id: &str) -> Option<Box<dyn Check>> {
     match id {
         "C01" => Some(Box::new(c01::C01::new())),
+        "C02" => Some(Box::new(c02::C02)),
+        "C03" => Some(Box::new(c03::C03)),
         _ => None,
     }
 }
